@@ -200,6 +200,31 @@ func c05() {
 			}
 		}
 	}
+	// (3b) byte-exhaustive families: every byte value after a backslash (short and long strings, both scanners), at each
+	// of the four hex positions of a \u escape, as the only byte of a string, as the byte after a number, and as the
+	// first byte of a value
+	for c := 0; c < 256; c++ {
+		ch := string([]byte{byte(c)})
+		for _, pad := range []string{"", "abcdefgh", "0123456789abcdefXYZ"} {
+			s := "\"" + pad + "\\" + ch + pad + "\""
+			jValid([]byte(s))
+			jValid([]byte("{" + s + ":" + s + "}"))
+			jValid([]byte("\"" + pad + ch + pad + "\""))
+			for k := 0; k < 4; k++ {
+				h := []byte("12aF")
+				h[k] = byte(c)
+				jValid([]byte("\"" + pad + "\\u" + string(h) + pad + "\""))
+			}
+		}
+		jConsumers([]byte("\"\\" + ch + "\""))
+		jConsumers([]byte("\"" + ch + "\""))
+		jValid([]byte("1" + ch))
+		jValid([]byte("-1.5e+3" + ch))
+		jValid([]byte(ch + "1"))
+		jValid([]byte("[1" + ch + "2]"))
+		jValid([]byte("tru" + ch))
+		jValid([]byte("nul" + ch + " "))
+	}
 	// (4) nesting ladder
 	depths := []int{1, 10, 100, 1000, 5000}
 	if thorough {
